@@ -362,6 +362,9 @@ func (rn *Runner) runBatch(cases []*Case) []*Result {
 		}
 		if len(junk) > 0 {
 			solo = true
+			if dbg := os.Getenv("VERIF_DEBUG_DIR"); dbg != "" {
+				os.WriteFile(filepath.Join(dbg, "junk-"+filepath.Base(mod)+".log"), []byte(strings.Join(junk, "\n")+"\n=====\n"+res.Stderr), 0o644)
+			}
 		}
 		for _, r := range results {
 			r.Exit = res.Exit
